@@ -45,10 +45,17 @@ Definition S_items_of_mapping_310 : Prop := forall p,
   ranges_ok p = true -> p <> [] ->
   mapping_to_items {| lm_lines := mapping_of_ranges p 0; lm_adds := [] |} true = OK (deltas p 0).
 
-(* assembler output is inside the raw domains *)
-Definition S_asm_pre310_raw : Prop := forall v37 p,
-  events_ok p = true ->
-  raw_ok false (asm_pre310 v37 p 0) = true /\ raw_even (asm_pre310 v37 p 0) = true.
+(* assembler output is inside the domains of the inverse laws.  (co_lnotab entries are NOT all even:
+   a bytecode delta above 255 is split into (255, 0) entries; what is even is the collapsed table.) *)
+Definition S_asm_pre310_raw_ok : Prop := forall v37 p,
+  events_ok p = true -> raw_ok false (asm_pre310 v37 p 0) = true.
+Definition S_asm_collapse_wfc : Prop := forall v37 p,
+  events_ok p = true -> wfc_lnotab (collapse_items false (asm_pre310 v37 p 0)) = true.
+Definition S_reader_lnotab_gen : Prop := forall t n m,
+  raw_ok false t = true -> wfc_lnotab (collapse_items false t) = true ->
+  items_to_mapping (collapse_items false t) n false = OK m ->
+  forall o, 0 <= o < n -> Z.even o = true ->
+  oget (lm_lines m) o = Some (Some (addr2line t o)).
 Definition S_asm_310_raw : Prop := forall p prev,
   ranges_ok p = true ->
   raw_ok true (asm_310 p prev) = true /\ raw_even (asm_310 p prev) = true.
